@@ -73,6 +73,75 @@ def pad_stim(d, offset, total):
     return s
 
 
+def check_net(R, drv, ds, same, dt, combos):
+    k = len(ds)
+    cells = []
+    for d in ds:
+        comp = jx.Compartment()
+        cells.append(jx.Cell([jx.Branch([comp] * kk) for kk in d["ncomp"]], parents=d["parents"]))
+    net = jx.Network(cells)
+    off = 0
+    net.insert(Leak())
+    for ci, d in enumerate(ds):
+        n = sum(d["ncomp"])
+        v = net.cell(ci)
+        v.set("radius", np.asarray(d["r"])); v.set("length", np.asarray(d["l"]))
+        v.set("axial_resistivity", np.asarray(d["ra"])); v.set("capacitance", np.asarray(d["cm"]))
+        v.set("Leak_gLeak", np.asarray(d["g"])); v.set("Leak_eLeak", np.asarray(d["e"])); v.set("v", np.asarray(d["v"]))
+    # one implementation run per combo with all stimuli; each cell checked against its own model
+    total = net.nodes.shape[0]
+    allstim = [0.0] * total
+    off = 0
+    for d in ds:
+        for i, vv in enumerate(d["istim"]):
+            allstim[off + i] = vv
+        off += sum(d["ncomp"])
+    for solver, backend in combos:
+        st, x = one_step(net, total, allstim, dt, solver, backend)
+        R.evaluations += 1
+        R.count(f"net{k}{'same' if same else 'diff'}:{solver}:{backend}:{st}")
+        if st == "refused":
+            ok = (solver == "fwd_euler" and x in ("NotImplementedError", "TypeError")) or (backend.startswith("jaxley") and x == "AssertionError" and not same)
+            if not ok:
+                R.spec_fail(dict(kind="illegitimate-refusal", solver=solver, backend=backend), f"network: {solver}/{backend} refuses with {x}",
+                            dict(cells=ds, dt=dt), x)
+            continue
+        off = 0
+        lines, meta = [], []
+        for d in ds:
+            n = sum(d["ncomp"])
+            lines.append(cable_line(d, dt, x[off:off + n], solver)); meta.append((d, x[off:off + n])); off += n
+        for (d, xs), o in zip(meta, [parse_cable(l) for l in drv.batch(lines)]):
+            inp = dict(cell=d, dt=dt, solver=solver, backend=backend, module=f"network of {k}")
+            if o is None or o["refused"]:
+                R.disagree("model-refuses-but-implementation-answers", input=inp); continue
+            if not (o["maxdiff"] <= TOL_DIFF * (1 + max(abs(v) for v in o["model"]))):
+                R.disagree("voltages", input=inp, impl=xs.tolist(), model=o["model"], maxdiff=o["maxdiff"])
+            if not (o["bwderr"] <= TOL_BWD):
+                R.spec_fail(dict(kind="not-a-solution", solver=solver, backend=backend if solver != "fwd_euler" else "-"),
+                            f"network, {solver}/{backend}: relative row residual {o['bwderr']:.3g}", inp, xs.tolist(), bwderr=o["bwderr"], exact_solution=o["model"])
+    for d in ds:
+        if len(d["parents"]) > 1 and len(set(d["ncomp"])) > 1:
+            R.distinct.add(json.dumps([d["parents"], d["ncomp"], "net"]))
+
+
+# regression corpus: morphologies on which a past version of the code was wrong (F1, N3, N7) and structural corner cases
+# (non-topological labelling, reversed chains, stars); they run first, in every tier, spread over the shards
+CORPUS = [
+    ("cell", [-1, 0, 0, 1], [2, 2, 3, 1]),          # F1
+    ("cell", [-1, 2, 0], [2, 3, 1]),                # N3
+    ("cell", [-1, 2, 0], [2, 2, 2]),                # N3, equal ncomp
+    ("cell", [-1, 3, 0, 0, 2], [1, 2, 3, 2, 1]),
+    ("cell", [-1, 4, 1, 0, 0], [3, 1, 2, 2, 4]),
+    ("cell", [-1, 2, 3, 4, 0], [2, 1, 3, 1, 2]),    # chain labelled backwards
+    ("cell", [-1, 0, 0, 0, 0], [3, 1, 2, 1, 4]),    # star
+    ("cell", [-1, 0, 1, 2, 3, 2, 1, 0], [1, 4, 1, 3, 2, 2, 1, 3]),
+    ("net", [-1], [1]),                             # N7: network of point neurons
+    ("net", [-1, 0, 0], [1, 1, 1]),
+    ("net", [-1, 2, 0], [2, 1, 2]),
+]
+
+
 def run(args):
     R = Result("C01")
     R.export_distinct = True
@@ -89,6 +158,19 @@ def run(args):
               "singles, random}, log-uniform r,l,ρ,c,g over 2-3 decades, random v, E, stimuli, dt log-uniform in [1e-4,1e3]; "
               "modules: compartment, branch, cell, network of 1-3 cells; all 7 (solver, backend) pairs each. distinct = distinct "
               "(parents, ncomp) pairs; non-trivial = at least one branch point and non-constant ncomp")
+    nsh = 8 if args.tier == "quick" else 16
+    for ci, (kind, parents, ncomp) in enumerate(CORPUS):
+        if ci % nsh != args.shard % nsh:
+            continue
+        dt = float(np.exp(rng.uniform(np.log(1e-3), np.log(1e2))))
+        if kind == "cell":
+            d = random_cell_desc(rng, morph=(parents, ncomp))
+            check_case(R, drv, d, build_cell(d), sum(ncomp), dt, 0, "cell", combos)
+            R.distinct.add(json.dumps([parents, ncomp]))
+        else:
+            ds = [random_cell_desc(rng, morph=(parents, ncomp)) for _ in range(3)]
+            check_net(R, drv, ds, True, dt, combos)
+        R.count("corpus")
     for t in range(ncases):
         dt = float(np.exp(rng.uniform(np.log(1e-4), np.log(1e3))))
         which = ["cell", "cell", "net", "branch", "comp"][(t + args.shard) % 5]
@@ -117,54 +199,7 @@ def run(args):
             ds = [random_cell_desc(rng, 4, 3) for _ in range(k)]
             if same:  # identical morphology so that the jaxley backends accept the network
                 ds = [ds[0]] + [random_cell_desc(rng, morph=(ds[0]["parents"], ds[0]["ncomp"])) for _ in range(k - 1)]
-            cells = []
-            for d in ds:
-                comp = jx.Compartment()
-                cells.append(jx.Cell([jx.Branch([comp] * kk) for kk in d["ncomp"]], parents=d["parents"]))
-            net = jx.Network(cells)
-            off = 0
-            net.insert(Leak())
-            for ci, d in enumerate(ds):
-                n = sum(d["ncomp"])
-                v = net.cell(ci)
-                v.set("radius", np.asarray(d["r"])); v.set("length", np.asarray(d["l"]))
-                v.set("axial_resistivity", np.asarray(d["ra"])); v.set("capacitance", np.asarray(d["cm"]))
-                v.set("Leak_gLeak", np.asarray(d["g"])); v.set("Leak_eLeak", np.asarray(d["e"])); v.set("v", np.asarray(d["v"]))
-            # one implementation run per combo with all stimuli; each cell checked against its own model
-            total = net.nodes.shape[0]
-            allstim = [0.0] * total
-            off = 0
-            for d in ds:
-                for i, vv in enumerate(d["istim"]):
-                    allstim[off + i] = vv
-                off += sum(d["ncomp"])
-            for solver, backend in combos:
-                st, x = one_step(net, total, allstim, dt, solver, backend)
-                R.evaluations += 1
-                R.count(f"net{k}{'same' if same else 'diff'}:{solver}:{backend}:{st}")
-                if st == "refused":
-                    ok = (solver == "fwd_euler" and x in ("NotImplementedError", "TypeError")) or (backend.startswith("jaxley") and x == "AssertionError" and not same)
-                    if not ok:
-                        R.spec_fail(dict(kind="illegitimate-refusal", solver=solver, backend=backend), f"network: {solver}/{backend} refuses with {x}",
-                                    dict(cells=ds, dt=dt), x)
-                    continue
-                off = 0
-                lines, meta = [], []
-                for d in ds:
-                    n = sum(d["ncomp"])
-                    lines.append(cable_line(d, dt, x[off:off + n], solver)); meta.append((d, x[off:off + n])); off += n
-                for (d, xs), o in zip(meta, [parse_cable(l) for l in drv.batch(lines)]):
-                    inp = dict(cell=d, dt=dt, solver=solver, backend=backend, module=f"network of {k}")
-                    if o is None or o["refused"]:
-                        R.disagree("model-refuses-but-implementation-answers", input=inp); continue
-                    if not (o["maxdiff"] <= TOL_DIFF * (1 + max(abs(v) for v in o["model"]))):
-                        R.disagree("voltages", input=inp, impl=xs.tolist(), model=o["model"], maxdiff=o["maxdiff"])
-                    if not (o["bwderr"] <= TOL_BWD):
-                        R.spec_fail(dict(kind="not-a-solution", solver=solver, backend=backend if solver != "fwd_euler" else "-"),
-                                    f"network, {solver}/{backend}: relative row residual {o['bwderr']:.3g}", inp, xs.tolist(), bwderr=o["bwderr"], exact_solution=o["model"])
-            for d in ds:
-                if len(d["parents"]) > 1 and len(set(d["ncomp"])) > 1:
-                    R.distinct.add(json.dumps([d["parents"], d["ncomp"], "net"]))
+            check_net(R, drv, ds, same, dt, combos)
     R.explanation = ("Hines correctness + pivot positivity proved for every tree system; implementation voltages checked in exact "
                      "rational arithmetic against the physics Spec and against the code-shaped model")
     R.assumptions = ["floating-point rounding of the elimination is measured (backward error), not proved",
